@@ -670,11 +670,24 @@ func (r *c38run) malformed(sched *simrt.Source, res *simrt.Result, stream []byte
 		{"body is a JSON array", hdr(`[1,2,3]`), true},
 		{"method is a number", hdr(`{"jsonrpc":"2.0","id":1,"method":5}`), true},
 	}
+	// The stream ends inside the body of the last frame, but what did arrive
+	// is a complete JSON message (the declared length is larger than the body,
+	// or the cut falls into trailing white space): a truncated frame, an error.
+	good := `{"jsonrpc":"2.0","id":7,"method":"truncated"}`
+	for _, over := range []int{1, 2, 5, 100, 4096} {
+		bads = append(bads, bad{fmt.Sprintf("stream ends %d bytes before the declared length (complete JSON arrived)", over),
+			fmt.Sprintf("Content-Length: %d\r\n\r\n%s", len(good)+over, good), false})
+	}
+	bads = append(bads, bad{"stream ends inside trailing white space of the body",
+		fmt.Sprintf("Content-Length: %d\r\n\r\n%s  ", len(good)+6, good), false})
 	for _, b := range bads {
 		if r.failure != nil {
 			return
 		}
 		k := sched.Draw(len(r.msgs) + 1) // position of the bad frame
+		if strings.HasPrefix(b.name, "stream ends") {
+			k = len(r.msgs) // nothing may follow: the stream ends here
+		}
 		var s []byte
 		for i := 0; i < k; i++ {
 			s = append(s, frame(i)...)
